@@ -356,6 +356,16 @@ pub fn vf_mutator_at(m: &VfMutators, i: usize) -> (r: &VfMutator)
 impl VfMutator {
     /// the unsafe_mode the mutator was created with (MutatorKind::create(unsafe_mode))
     pub uninterp spec fn unsafe_mode(&self) -> bool;
+    /// Mutator::is_unsafe() / Mutator::name(): pure observers.  Stated so that a dispatcher consulting them stays within the
+    /// verifier's reach (and is then held to the first-wins specification like any other dispatcher body)
+    pub uninterp spec fn is_unsafe_spec(&self) -> bool;
+    #[verifier::external_body]
+    pub fn is_unsafe(&self) -> (r: bool)
+        ensures r == self.is_unsafe_spec()
+    { unimplemented!() }
+    #[verifier::external_body]
+    pub fn name(&self) -> (r: &'static str)
+    { unimplemented!() }
     // One mutator call is a deterministic function of (mutator, value, entropy state, rate): what it returns and the
     // entropy state it leaves behind.  Uninterpreted: the dispatchers of src/generator/mutation.rs are specified
     // against these functions ("the first registered mutator that fires decides the value", C15), nothing is
